@@ -1056,6 +1056,27 @@ impl W {
         Ok(())
     }
 
+    /// A busy frame: thousands of queued actions; each must run exactly once at the next maintain.
+    fn op_lazy_flood(&mut self) -> R {
+        self.set_ctx("C09");
+        self.domain(&["C09"]);
+        let n = self.rng.range(4200, 9000);
+        for _ in 0..n {
+            self.next_script += 1;
+            let s = Script { id: self.next_script, ops: Vec::new(), mutable: false };
+            self.scripts.insert(s.id, s.clone());
+            let id = s.id;
+            let env = self.env.clone();
+            {
+                let lazy = self.world().read_resource::<LazyUpdate>();
+                lazy.exec(move |w| exec_script(w, s, env));
+            }
+            self.queue.push_back(Action::Script { id });
+        }
+        self.log(format!("lazy_flood({} actions)", n));
+        Ok(())
+    }
+
     fn op_clear(&mut self) -> R {
         let regs = self.registered_storages();
         if regs.is_empty() {
@@ -1180,7 +1201,11 @@ fn run_case(rep: &mut Report, case: u64) {
             let live = w.model.n_not_dead();
             let grow = if live < 2 { 60 } else if live >= max_live { 4 } else { 22 };
             let weights = [grow, grow / 3, grow / 4, grow, grow / 3, grow / 3, grow / 4, grow / 2, 14, 9, 12, 1, 9, 40, 16, 1, 2];
-            (w.rng.weighted(&weights), Hint::Any)
+            if w.rng.chance(1, 2500) {
+                (17, Hint::Any)
+            } else {
+                (w.rng.weighted(&weights), Hint::Any)
+            }
         };
         let r: R = (|| {
             match code {
@@ -1227,6 +1252,7 @@ fn run_case(rep: &mut Report, case: u64) {
                 13 => w.op_access()?,
                 14 => w.op_lazy()?,
                 15 => w.op_clear()?,
+                17 => w.op_lazy_flood()?,
                 _ => w.op_register()?,
             }
             let big = w.model.handles.len() > 256;
